@@ -473,13 +473,22 @@ def exampleRequest : Extracted :=
    ["SPDX-FileCopyrightText: 2020 Jane Doe <jane@example.org>".toList],
    ["Jane Doe <jane@example.org>".toList]⟩
 
--- the hypotheses are satisfiable: Python (single-line), C (multi-line, forced), `FILE.license` (as it is)
-example : ∃ c : HdrCfg, c.style ∈ Generated.styles ∧ c.render = defaultRender ∧ c.commented = false ∧
-    lineMode c.style c.forceMulti = some .single ∧ wfRequest Generated.endRe c.style .single exampleRequest = true := by
-  refine ⟨⟨C07A.styleNamed "PythonCommentStyle", defaultRender, false, false, false, fun _ => true, id⟩,
-    C07A.styleNamed_mem "PythonCommentStyle" (by decide +kernel), rfl, rfl, by decide +kernel, ?_⟩
+/-- the example request is covered under the Python style (single-line) -/
+theorem C07_example_request :
+    wfRequest Generated.endRe (C07A.styleNamed "PythonCommentStyle") .single exampleRequest = true := by
   simp only [wfRequest, exampleRequest, List.all_cons, List.all_nil, Bool.and_true, C07_example_notice, Bool.true_and]
   decide +kernel
+
+-- the hypotheses are satisfiable: Python (single-line), C (multi-line, forced), `FILE.license` (as it is)
+example : ∃ c : HdrCfg, c.style ∈ Generated.styles ∧ c.render = defaultRender ∧ c.commented = false ∧
+    lineMode c.style c.forceMulti = some .single ∧ wfRequest Generated.endRe c.style .single exampleRequest = true :=
+  ⟨⟨C07A.styleNamed "PythonCommentStyle", defaultRender, false, false, false, fun _ => true, id⟩,
+    C07A.styleNamed_mem "PythonCommentStyle" (by decide +kernel), rfl, rfl, by decide +kernel, C07_example_request⟩
+-- the hypothesis `tagLinesClosed` of C07_file / C07_file_window is satisfiable: the header of the example request
+example : tagLinesClosed Generated.endRe (join ['\n'] (C07A.headerLines (C07A.styleNamed "PythonCommentStyle") .single
+    (C07A.bodyLines (sortTexts exampleRequest.cpr) (sortTexts exampleRequest.con) (sortTexts exampleRequest.lic)))) = true :=
+  C07A.default_header_closed Generated.endRe C07_end_facts.1 (C07A.styleFacts (by decide +kernel))
+    (C07A.reqOK_of_wfRequest C07_example_request)
 example : ∃ c : HdrCfg, c.style ∈ Generated.styles ∧ c.render = defaultRender ∧ c.commented = false ∧
     lineMode c.style c.forceMulti = some .multi ∧ wfRequest Generated.endRe c.style .multi exampleRequest = true := by
   refine ⟨⟨C07A.styleNamed "CppCommentStyle", defaultRender, false, true, false, fun _ => true, id⟩,
